@@ -165,6 +165,6 @@ def run(pid, tier, seed):
                                "; distinct by full event text",
                        "samples": samples or ["(none)"], "formats": nf, "exhaustive": False},
           "assumptions": ["TLC; module Format as the documented rendering; strftime is an uninterpreted function whose graph is recorded by the harness for the stretches the specification delegates",
-                          "formats containing NUL have no functional oracle (memory safety only)", "ASan+UBSan(trap) observe the memory-safety clause on executed inputs"],
+                          "a stretch handed to strftime that contains NUL has no recorded answer (the format is then undetermined: memory safety only); NUL in ordinary text is judged", "ASan+UBSan(trap) observe the memory-safety clause on executed inputs"],
           "wall_s": time.time() - t0}
     return verdict.finish(ev)
